@@ -5,6 +5,7 @@ exit 1  at least one unlisted violation; prints `VIOLATION property=<id> replay=
 exit 2  ANALYSIS-ERROR: the checker cannot decide (parse failure, vanished anchor, floor not met, bug)
 """
 import argparse
+import ast
 import importlib
 import json
 import os
@@ -27,6 +28,17 @@ COMMON_ASSUMPTIONS = [
 ]
 
 
+def awaited(ctx):
+    from . import awaitables
+    aw = awaitables.Awaitables(ctx.prog)
+    rule = f"{ctx.pid}-A/AWAIT"
+    for q in sorted(ctx.eng._fa):
+        fa = ctx.eng._fa[q]
+        for c, ok, why in awaitables.check_function(aw, fa):
+            ctx.ob(rule, ok, fa.site(c), f"the awaitable returned by `{ast.unparse(c.func)}(…)` is awaited, returned by a plain function, or handed to a scheduler", detail=why,
+                   func=q, key=f"{rule}|{q}|{ast.unparse(c.func)}")
+
+
 def run_property(pid, repo, tier):
     mod = importlib.import_module(f"lbsa.props.{pid.lower()}")
     prog = Program(repo, extra_dirs=("scripts",) if tier == "thorough" else ())
@@ -37,6 +49,7 @@ def run_property(pid, repo, tier):
         mod.check(ctx)
         if tier == "thorough" and hasattr(mod, "check_thorough"):
             mod.check_thorough(ctx)
+        awaited(ctx)              # Cxx-A/AWAIT: no awaitable created by the analysed functions is dropped (lbsa/awaitables.py)
     except AnalysisError as e:
         # a vanished anchor / unsupported construct: if rule instances already failed on this tree, those
         # reports stand (the tree is not the reference tree); otherwise the checker cannot decide
